@@ -3,6 +3,7 @@ CONSTANTS
   SetPrios = {1, 2, 3}
   Alphabet <- AlphaPertNoTick
   K = 0
+  ReAddPinned = FALSE
   CapBase = 0
 INIT Init
 NEXT Next
